@@ -20,6 +20,7 @@
 import LbfgsbVerif.Props.C06Sim
 import LbfgsbVerif.Proofs.Shell
 import LbfgsbVerif.Proofs.CauchyDeriv
+import LbfgsbVerif.Props.Kernels
 
 set_option linter.unusedSectionVars false
 
@@ -265,7 +266,7 @@ theorem iterBody_rinv (u : User K ε) (o : Oracles K δ) (c : Cfg K) (hcb : ∀ 
 
 /-- the kernels return a point of the length of the (feasible) iterate -/
 def XbarLen (o : Oracles K δ) (c : Cfg K) : Prop :=
-  ∀ x g m, clip x c.lb c.ub = x → (o.xbar x g m).length = x.length
+  ∀ x g m, x.length = c.lb.length → clip x c.lb c.ub = x → (o.xbar x g m).length = x.length
 
 /-- **the state a fresh run enters its loop with is restartable** -/
 theorem fresh_rinv (u : User K ε) (c : Cfg K) (a : K) (hck : c.checkpoint = none) (hS : c.hasScaler = false)
@@ -338,7 +339,7 @@ theorem reach_rinv (u : User K ε) (o : Oracles K δ) (c : Cfg K) (hcb : ∀ r, 
   | refl => exact h0
   | step _ _ hb hacc ih =>
     obtain ⟨X', G', hs⟩ := ih.re
-    exact iterBody_rinv u o c hcb hU hm hbox hgl _ _ a ih (hxb _ _ _ hs.inbox) hb hacc
+    exact iterBody_rinv u o c hcb hU hm hbox hgl _ _ a ih (hxb _ _ _ ih.xlen hs.inbox) hb hacc
 
 /-- the run from `s0` passes through `s`: with `k` more iterations allowed it computes from `s0` what it
 computes from `s` -/
@@ -381,6 +382,32 @@ theorem restart_at_every_split (u : User K ε) (o : Oracles K δ) (c : Cfg K) (a
   refine ⟨k, fun fuel => ?_⟩
   rw [hk fuel]
   exact restart_continues u o c s X' G' a s.result hre (snapshot_result s) hS hU hT hg hcb i sB hi hp fuel hfe
+
+/-- the composed kernel models return a point of the length of the iterate -/
+theorem xbarLen_concrete [Dcsrch.DcOps K] (c : Cfg K) (e : K) (hbox : BoxOk c.lb c.ub) :
+    XbarLen (concreteOracles c.lb c.ub e) c := by
+  intro x g m hl hx
+  have hin : InBox c.lb c.ub x := by rw [← hx]; exact clip_inBox hbox x hl
+  have := xbarModel_inBox c.lb c.ub hbox e x g m hin
+  show (xbarModel c.lb c.ub e x g m).length = x.length
+  rw [(inBox_length this).1, (inBox_length hin).1]
+
+/-- **C06 / C07 (every split point, complete model)** `restart_at_every_split` for the complete executable model — the
+kernels and the stepper are the concrete ones, no hypothesis on them is left -/
+theorem restart_at_every_split_complete [Dcsrch.DcOps K] (u : User K ε) (c : Cfg K) (e a : K)
+    (hck : c.checkpoint = none) (hS : c.hasScaler = false) (hU : c.hasUpdate = false) (hT : c.ftarget = none)
+    (hg : c.gtol = .const a) (hcb : ∀ r, u.callback r = .ok false) (hm : 1 ≤ c.maxcor) (hbox : BoxOk c.lb c.ub)
+    (hx0 : c.x0.length = c.lb.length) (hgl : GradLen u c)
+    (i0 : Init K) (s0 s : St K) (hi0 : initEval u c = .ok i0) (hp0 : prepare u c i0 = .ok s0)
+    (hr : AccReach u (concreteOracles c.lb c.ub e) c s0 s)
+    (i : Init K) (sB : St K)
+    (hi : initEval u { c with checkpoint := some s.result, x0 := s.x } = .ok i)
+    (hp : prepare u { c with checkpoint := some s.result, x0 := s.x } i = .ok sB)
+    (hfe : guard c s = true → FirstEval (concreteOracles c.lb c.ub e) c s.x s.f s.g
+      (vsub ((concreteOracles c.lb c.ub e).xbar s.x s.g s.mats) s.x) s.nit (min c.maxls (c.maxfun - s.sf.nfev))) :
+    ∃ k, ∀ fuel, (mainLoop u (concreteOracles c.lb c.ub e) c (fuel + k) s0).map St.er2 =
+      (mainLoop u (concreteOracles c.lb c.ub e) { c with checkpoint := some s.result, x0 := s.x } fuel sB).map St.er2 :=
+  restart_at_every_split u _ c a hck hS hU hT hg hcb hm hbox hx0 hgl (xbarLen_concrete c e hbox) i0 s0 s hi0 hp0 hr i sB hi hp hfe
 
 end Lbfgsb.C06
 
@@ -429,7 +456,7 @@ example : GradLen simUser simCfg := by
   rw [← h]
 
 example : XbarLen simOracles simCfg := by
-  intro x g m _
+  intro x g m _ _
   simp [simOracles, smul]
 
 example : BoxOk simCfg.lb simCfg.ub := by
